@@ -107,6 +107,6 @@ def encTo (m : Msg) (k : Nat) : Bool × Bytes :=
   let e := m.enc
   if e.bytes.length ≤ k then (e.err.isNone, e.bytes) else (false, e.bytes.take k)
 
-def strictCfg (limit : Nat) : Cfg := ⟨fun _ _ => false, limit⟩
+def strictCfg (limit : Nat) (T : Tables := {}) : Cfg := ⟨fun _ _ => false, limit, T⟩
 
 end Dia
